@@ -327,6 +327,9 @@ func indexGuarded(in ssa.Instruction, s, idx ssa.Value) bool {
 	return false
 }
 
+// curProg is the program under analysis (set by panicFree for the helpers that have no Prog parameter).
+var curProg *Prog
+
 // containerField finds the sync.Map / atomic.Value field a value was read from,
 // and whether v is the key or the value of an entry.
 func containerField(v ssa.Value) (*types.Var, string) {
@@ -357,8 +360,20 @@ func containerField(v ssa.Value) (*types.Var, string) {
 				return fieldOfRecv(x.Call.Args[0]), "value"
 			}
 		case *ssa.Parameter:
-			// callback of sync.Map.Range
+			// callback of sync.Map.Range (func literal or method value)
 			fn := x.Parent()
+			if curProg != nil {
+				for _, c := range rangeCallsOf(curProg, fn) {
+					role := "key"
+					np := len(fn.Params)
+					if np >= 2 && fn.Params[np-1] == x {
+						role = "value"
+					} else if np >= 2 && fn.Params[np-2] != x {
+						continue // the receiver of a method value
+					}
+					return fieldOfRecv(c.Common().Args[0]), role
+				}
+			}
 			if fn.Parent() == nil {
 				continue
 			}
@@ -641,6 +656,7 @@ func allowPanic(key, reason string) { panicAllow[key] = reason }
 // panicFree reports every undischarged panic site reachable from roots.
 func panicFree(p *Prog, r *Report, rule string, roots []*ssa.Function, scope func(*ssa.Function) bool) {
 	r.Rule(rule, "no instruction that can panic or exit the process (explicit panic, unchecked type assertion, index/slice without an established bound, integer division by a variable, Fatal/os.Exit) is reachable from the entry points, apart from sites discharged by the bound analysis or listed with a reason")
+	curProg = p
 	reach := reachableFrom(p, roots, scope)
 	var fns []*ssa.Function
 	for fn := range reach {
